@@ -405,11 +405,17 @@ class Engine:
 # minimisation: ddmin over the event list, then per-event simplification
 # ---------------------------------------------------------------------------------------------------------
 
-def minimise(engine_factory, events, sig, budget=400):
-    """Shrink events (keeping events[0]) while an incident with signature `sig` still fires."""
+def minimise(engine_factory, events, sig, budget=400, wall_budget=90.0):
+    """Shrink events (keeping events[0]) while an incident with signature `sig` still fires.
+    Bounded by a number of replays and by wall-clock time (a change that makes calls slow must not stall the check)."""
+    import time as _time
     calls = [0]
+    t_end = _time.time() + wall_budget
 
     def fails(evs):
+        if _time.time() > t_end and calls[0] > 0:
+            calls[0] = budget + 10 ** 6      # out of time: every further candidate is "not a reproduction"
+            return False
         calls[0] += 1
         try:
             rec = engine_factory().replay(evs)
